@@ -93,6 +93,22 @@ func ClassifyRace(block string) (class, sig string) {
 			}
 		}
 	}
+	// the accessing frame is often a runtime / sync helper called from the code at fault:
+	// look at the first frame outside the runtime and the sync packages
+	tops = tops[:0]
+	for i, st := range stacks {
+		access := i < 2 && (strings.Contains(st.header, "rite at") || strings.Contains(st.header, "ead at"))
+		if !access {
+			continue
+		}
+		for _, f := range st.funcs {
+			if strings.HasPrefix(f, "runtime.") || strings.HasPrefix(f, "sync.") || strings.HasPrefix(f, "sync/atomic.") {
+				continue
+			}
+			tops = append(tops, f)
+			break
+		}
+	}
 	short := make([]string, len(tops))
 	topWrgl, topHarness := false, len(tops) > 0
 	for i, t := range tops {
